@@ -1,7 +1,7 @@
 (* C15: executable cross-check of the equivariance theorems: the brute-force separation oracle and the C01 model
    evaluated on a graph and on its renaming through an explicit finite table. *)
 From Coq Require Import List Arith Bool Lia.
-From PG Require Import Base.ListSet Base.Closure Base.Sx Graph.MGraph Graph.MSep Graph.Rename C01.Model.
+From PG Require Import Base.ListSet Base.Closure Base.Sx Graph.MGraph Graph.MSep Graph.Rename C01.Model C15.ExtraModel.
 Import ListNotations.
 
 (* table lookup; nodes outside the table are shifted past every table value (keeps the function one-to-one on the graph) *)
@@ -10,7 +10,7 @@ Fixpoint lookup (t : list (nat * nat)) (v : nat) : option nat :=
 Definition table_fun (t : list (nat * nat)) (v : nat) : nat :=
   match lookup t v with Some w => w | None => v + 1 + list_max (map snd t) end.
 
-Definition run_case (s : sx) : sx :=
+Definition run_oracle (s : sx) : sx :=
   let g := sx_graph (sx_nth s 0) in
   let X := sx_nats (sx_nth s 1) in
   let Y := sx_nats (sx_nth s 2) in
@@ -19,3 +19,7 @@ Definition run_case (s : sx) : sx :=
   let g' := rmap f g in
   L [of_bool (msep_dec g X Y Z); of_bool (msep_dec g' (map f X) (map f Y) (map f Z));
      res_code (msep_model g X Y Z); res_code (msep_model g' (map f X) (map f Y) (map f Z))].
+
+(* a case whose first element is a number is an extension case (C15/ExtraModel.v: the algorithms no other property reaches) *)
+Definition run_case (s : sx) : sx :=
+  match sx_nth s 0 with I tag => run_extra tag s | L _ => run_oracle s end.
